@@ -211,7 +211,10 @@ class Batch:
 
 
 def key_of(kind, opt, tok, ctx):
-    return f"{kind}:{hx(tok)}:{hx(ctx)}:opt{opt}"
+    """canonical form of a failing input: the kind and the bare token (layout and the delimiter context do not matter;
+    OPTIONAL matters only for the null token)"""
+    t = tok.strip(" \t\n\r\v\f")
+    return f"{kind}:{hx(t)}" + (":optional" if opt and t.startswith("$") else "")
 
 
 def evaluate(ctx, batch, real_cmd, model_cmd, env, problems, reasons):
@@ -244,6 +247,14 @@ def evaluate(ctx, batch, real_cmd, model_cmd, env, problems, reasons):
                     rs = ("comment", "comment")
                     vkey = "ctx:comment-between-value-and-delimiter"
                     why = "comment between a value and its delimiter: " + why
+                from vlib import findings as KF
+                if KF.lookup(ctx.pid, vkey) if hasattr(ctx, "pid") else None:
+                    # a listed finding: announce it (once per key), do not let it mask other inputs of the same class
+                    if ("known", vkey) not in reasons:
+                        reasons[("known", vkey)] = True
+                        problems.append(("property", vkey, why, {"request": line}))
+                    nprob += 1
+                    continue
                 if rs not in reasons:
                     reasons[rs] = True
                     problems.append(("property", vkey, why,
